@@ -166,9 +166,12 @@ func Identical(a, b Object) bool {
 		return true
 	case FUNC:
 		// Same text is not enough: two closures made by one maker print alike and capture different variables.
-		// Identical functions have the same text and the same defining environment (so re-running a definition,
+		// Identical functions have the same name, the same text and the same defining environment (so re-running a definition,
 		// e.g. re-loading a state file, is still the same function).
 		fa, fb := a.(Function), b.(Function)
+		if (fa.Name == nil) != (fb.Name == nil) || (fa.Name != nil && fa.Name.Literal() != fb.Name.Literal()) {
+			return false // func f(x){x} and func g(x){x} print differently (the cache key leaves the name out)
+		}
 		return fa.CacheKey == fb.CacheKey && fa.Env == fb.Env
 	default:
 		return Equals(a, b)
